@@ -82,7 +82,7 @@ def gen_cases(ctx):
                         cases += _case(E, life, dur, F('0.012'), adj, F('0.03'), start, endp, esc, rate)
     n_small = len(cases)
     # random tuples, mostly valid, a small malformed stream (duration > lifetime)
-    nrand = ctx.n(500, 6000)
+    nrand = ctx.n(500, 3000)
     for _ in range(nrand):
         life = rnd.choice([1, 2, 3, 5, 7, 10, 15, 20, 30] + ([] if ctx.quick else [40, 60, 100]))
         dur = rnd.randint(0, life) if rnd.random() > 0.05 else life + rnd.randint(1, 3)
@@ -177,8 +177,8 @@ def correspondence(ctx, proofs_ok=True):
     pr = [c for c in cases if c['fn'] == 'pricing']
     key = lambda c: 'schedule:%s:life=%s,esc=%s,dur=%s' % (c['desc']['fn'], c['desc']['life'], c['desc']['esc'], c['desc']['dur'])
     what = 'schedule differs from the documented shape (Coq model proved equal to it: C16_schedule_shape)'
-    flatcorr.run(ctx, 'BuildPTCModel-exact', ['Model.Price'], 'run_ptc', F(0), ptc, kind='property', key_of=key, what=what)
-    flatcorr.run(ctx, 'BuildPricingModel-exact', ['Model.Price'], 'run_pricing', F(0), pr, kind='property', key_of=key, what=what)
+    flatcorr.run(ctx, 'BuildPTCModel-exact', ['Model.Price'], 'run_ptc', F(0), ptc, kind='property', key_of=key, what=what, shard=ctx.n(400, 150))
+    flatcorr.run(ctx, 'BuildPricingModel-exact', ['Model.Price'], 'run_pricing', F(0), pr, kind='property', key_of=key, what=what, shard=ctx.n(400, 150))
     errs = sum(1 for c in cases if c['impl'][0] == 'E')
     ctx.count('schedule-domain', error_cases=errs)
 
